@@ -28,7 +28,7 @@ func runC12(p *core.Prog, r *core.Result) {
 		"R12.4 the project's target and module tables are keyed only by printed labels ((*Label).String())",
 		"R12.10 every name stored in a Label outside the label package's own constructors is valid by construction: a constant without ':' or '/', another label's name, or a value that passed label.New / label.Parse - a name taken from module code unvalidated (target(name=\"a:b\")) gives a label that does not survive print + parse",
 		"R12.6 (necessary for canonicity) every package stored in a Label is canonical by construction: a Clean/Join result, another label's package, \"\" or \"//\"",
-		"R12.9 label.New - which, unlike Parse, is handed the components separately - tests its name for both ':' and '/', its kind for ':' and '/', and its project for ':' (the characters the printed form uses as delimiters), so every label it accepts prints to a string that parses back",
+		"R12.9 label.New - which, unlike Parse, is handed the components separately - tests its name for both ':' and '/', its kind for ':' and '/', and its project for ':', for \"//\" inside it and for \"/\" at its end (the characters and the boundary the printed form uses as delimiters), so every label it accepts prints to a string that parses back",
 		"R12.8 (necessary for canonicity: Clean is idempotent) inside Clean's loop a separator is written only in front of an element: from every place a '/' is appended, every feasible path (branch conditions interpreted by the zone analysis) appends an element byte before Clean returns or appends another separator",
 		"R12.7 (parsing never crashes) every index and slice expression of package label is in range on every path, decided by a difference-bound abstract interpretation of the SSA (loop invariants by widening/narrowing, branch facts, immutable string contents, case analysis over short-circuit diamonds); sites on the fields of a lazybuf inside its methods are excepted (their safety is the caller-side invariant w <= r of Clean)",
 		"R12.5 (part of 'parsing never crashes') every string slice in package label whose bound derives from an Index*/LastIndex* result on the sliced string is in range under the established found-ness fact",
@@ -1524,6 +1524,50 @@ func checkNewValidation(p *core.Prog, r *core.Result) {
 		r.Check(len(missing) == 0, "R12.9", construct, p.Pos(nw.Pos()), fmt.Sprintf("the %s is tested for %q", prm.Name(), w), fmt.Sprintf("the %s handed to New is not tested for %s: a label is accepted whose printed form has an extra delimiter, so it does not parse or parses to a different label (New(\"\", \"\", \"//a\", \"b:c\") prints //a:b:c, which reads back as kind //a, package b, name c); source files and flags get such labels from user input", prm.Name(), strings.Join(missing, ", ")))
 	}
 	r.Floor("R12.9", n, 3, "separately supplied components of label.New")
+	// the project of a printed label ends where the first "//" begins: New must refuse a project that contains "//" or
+	// ends in "/" (substring and suffix tests with constant operands, on the parameter or in a helper it is handed to)
+	var subTests func(fn *ssa.Function, prm *ssa.Parameter, depth int) (contains, suffix map[string]bool)
+	subTests = func(fn *ssa.Function, prm *ssa.Parameter, depth int) (map[string]bool, map[string]bool) {
+		contains, suffix := map[string]bool{}, map[string]bool{}
+		for _, c := range core.Calls(fn) {
+			args := c.Common().Args
+			cal := core.Callee(c)
+			if cal == nil {
+				continue
+			}
+			if cal.Pkg != nil && cal.Pkg.Pkg.Path() == "strings" && len(args) == 2 && args[0] == ssa.Value(prm) {
+				if k, ok := core.ConstString(args[1]); ok {
+					switch cal.Name() {
+					case "Contains", "Index":
+						contains[k] = true
+					case "HasSuffix":
+						suffix[k] = true
+					}
+				}
+			}
+			if core.InModule(cal) && cal.Blocks != nil && cal.Pkg == fn.Pkg && depth < 2 {
+				for i, a := range args {
+					if a == ssa.Value(prm) && i < len(cal.Params) {
+						c2, s2 := subTests(cal, cal.Params[i], depth+1)
+						for k := range c2 {
+							contains[k] = true
+						}
+						for k := range s2 {
+							suffix[k] = true
+						}
+					}
+				}
+			}
+		}
+		return contains, suffix
+	}
+	for _, prm := range nw.Params {
+		if prm.Name() != "project" {
+			continue
+		}
+		contains, suffix := subTests(nw, prm, 0)
+		r.Check(contains["//"] && suffix["/"], "R12.9", "label.New#validates-project-boundary", p.Pos(nw.Pos()), "the project is refused if it contains \"//\" or ends in \"/\"", "the project handed to New is not tested for \"//\" inside it and \"/\" at its end: Parse takes everything before the first \"//\" as the project, so New(\"\", \"a//b\", \"//c\", \"n\") is accepted, prints a//b//c:n and reads back as project a, package //b/c")
+	}
 }
 
 // checkIndexComplete implements R14.7.
